@@ -723,6 +723,47 @@ func Emit(repo string) {
 	sort.Strings(regExt)
 	fmt.Printf("Definition registered_ext_options : list string := %s.\n", coqStrList(regExt))
 
+	// ICA host allow-lists set by upgrade handlers (`AllowMessages: []string{sdk.MsgTypeURL(&pkg.Type{}), …}`)
+	var icaLists []string
+	for _, dir := range goDirs(repo, "app/upgrades") {
+		for _, fl := range ParseDir(dir) {
+			ast.Inspect(fl.F, func(n ast.Node) bool {
+				kv, ok := n.(*ast.KeyValueExpr)
+				if !ok {
+					return true
+				}
+				id, ok := kv.Key.(*ast.Ident)
+				if !ok || id.Name != "AllowMessages" {
+					return true
+				}
+				cl, ok := kv.Value.(*ast.CompositeLit)
+				if !ok {
+					icaLists = append(icaLists, coqStrList([]string{"?" + Nospace(kv.Value)}))
+					return true
+				}
+				var names []string
+				for _, e := range cl.Elts {
+					name := "?" + Nospace(e)
+					if c, ok := e.(*ast.CallExpr); ok && lastIdent(c.Fun) == "MsgTypeURL" && len(c.Args) == 1 {
+						if u, ok := c.Args[0].(*ast.UnaryExpr); ok {
+							if l, ok := u.X.(*ast.CompositeLit); ok {
+								name = Nospace(l.Type)
+							}
+						}
+					} else if bl, ok := e.(*ast.BasicLit); ok {
+						if v, err := strconv.Unquote(bl.Value); err == nil {
+							name = v
+						}
+					}
+					names = append(names, name)
+				}
+				icaLists = append(icaLists, coqStrList(names))
+				return true
+			})
+		}
+	}
+	fmt.Printf("Definition ica_allow_lists : list (list string) := [%s].\n", strings.Join(icaLists, "; "))
+
 	// MsgEthereumTx.GetSigners: recovered from the signature (GetSender) and never from the unsigned From field
 	recovered := false
 	if fd := findFunc(ParseDir(repo+"/x/evm"), "GetSigners", "MsgEthereumTx"); fd != nil {
